@@ -27,3 +27,7 @@ PROPS["C02"]["generators"] = ["C02", "FN"]
 PROPS["C08"]["generators"] = ["C08", "FN", "CENSUS"]
 for _k in ("C13tei", "C04mcts", "C13tps", "C13ptn", "C04ab", "C04book"):
     PROPS.pop(_k, None)   # temporary per-part entries of the work packages
+
+# ops whose exact output the property does not prescribe (see ./check: weak_ops)
+PROPS["C08"]["weak_ops"] = ["hash", "mhash"]
+PROPS["C18"]["weak_ops"] = ["eval", "evalw", "evalparts", "control", "mobility", "dims", "evalconsts", "weights", "evalterm"]
